@@ -166,6 +166,10 @@ def run_cases(ctx, name, header, case_terms, check_fn, shard=300, timeout=600):
         return None
     return results
 
+def all_finite(*xs):
+    """True iff every number in the (nested) results is finite: residual tests written as `err > tol` pass silently on NaN"""
+    import numpy as np
+    return all(bool(np.all(np.isfinite(a))) for x in xs for a in _flat(x))
 # ------------------------------------------------------------------ memory-layout independence
 def _flat(x):
     import numpy as np, quaternion
